@@ -84,7 +84,7 @@ def classOf (g : String) : Option GClass :=
                "last_verb"] then some .context
   else if g ∈ ["in_error", "in_mudlib_error_handler", "error_state", "catch_value"] then some .handler
   else if g ∈ ["current_interactive"] then some .loop
-  else if g ∈ ["cgsp", "command_giver_stack"] then some .balanced
+  else if g ∈ ["cgsp", "command_giver_stack", "command_giver_held"] then some .balanced
   else if g ∈ ["num_varargs", "st_num_arg", "call_origin", "apply_ret_value", "global_lvalue_byte", "global_lvalue_range",
                "global_lvalue_range_sv", "illegal_sentence_action", "inherit_file"] then some .scratch
   else if g ∈ ["apply_low_cache_hits", "apply_low_call_others", "apply_low_collisions", "apply_low_slots_used", "cache",
